@@ -53,10 +53,12 @@ def _vinst(tier):
     out = pipe.instances(tier, 2, 3, nmin=1, lean=True, tagsel=lambda t: "multi" not in t and "nocold" not in t)
     if tier == "quick":  # periodic timers x three subscriptions: thorough tier only (average stays: its state leak needs differing data)
         out = [i for i in out if i["op"] not in PERIODIC or i["op"] == "average"]
+        # queued inner sources need two outer elements
+        out += [{"op": o, "N": 2} for o in ("merge_max", "concat_map") if {"op": o, "N": 2} not in out]
     return out
 
 
-@harness(instances=_vinst, timeout=(90, 900), d=I(0, 5), bt=I(1, 2), **pipe.params(gmax=1))
+@harness(instances=_vinst, timeout=(240, 900), d=I(0, 5), bt=I(1, 2), **pipe.params(gmax=1))
 def h_varying(a, inst):
     """the same observable object over a deferred source that yields timeline A (symbolic) to the first subscription and a shorter
     timeline B to the second; the first subscription runs to its end (completion or error) or is disposed after d ticks.  The
